@@ -217,9 +217,12 @@ class HierDictDocument(DictDocument):
 
                 elif issubclass(cls, Unicode):
                     if isinstance(inst, bytearray):
-                        retval = six.text_type(inst,
+                        try:
+                            retval = six.text_type(inst,
                                 encoding=cls_attrs.encoding or 'ascii',
                                                 errors=cls_attrs.unicode_errors)
+                        except UnicodeDecodeError:
+                            raise ValidationError([key, inst])
 
                     elif isinstance(inst, memoryview):
                         # FIXME: memoryview needs a .decode() function to avoid
